@@ -58,11 +58,58 @@ def _afrom_job(job):
     return n, dis[:5], vio[:5]
 
 
+def _interleave_job(seed):
+    """in a freshly forked process (no slice write has happened yet): address / instance writes interleaved
+    with raw slice and bit writes at the codec's coordinates on frames of OTHER widths, in random order.
+    Returns (lines, impl answers, violations)."""
+    import random
+    from dali import address as A
+    from dali.frame import ForwardFrame, Frame
+    rng = random.Random(seed)
+    gear, dev = cc.all_addrs()
+    insts, reserved = cc.all_insts()
+    widths = [9, 16, 17, 24, 25, 32, 40]
+    objs = [(a, 16, 9, 15) for a in rng.sample(gear, 12)] + [(a, 24, 17, 23) for a in rng.sample(dev, 12)] + \
+        [(i, 24, 8, 15) for i in rng.sample(insts + reserved, 24)]
+    coords = [(15, 9), (15, 13), (12, 9), (14, 9), (23, 17), (23, 22), (21, 17), (22, 17), (15, 8)]
+    lines, impl, vio = [], [], []
+    for rep in range(4):
+        rng.shuffle(objs)
+        for o, bits, lo, hi in objs:
+            for _ in range(3):
+                w = rng.choice(widths)
+                hh, ll = rng.choice(coords)
+                if hh < w:
+                    g = Frame(w, rng.randrange(1 << w))
+                    g[hh:ll] = rng.randrange(1 << (hh - ll + 1))
+                    g[rng.randrange(w)] = rng.random() < 0.5
+            d = rng.randrange(1 << bits)
+            f = ForwardFrame(bits, d)
+            o.add_to_frame(f)
+            mask = ((1 << (hi + 1)) - 1) ^ ((1 << lo) - 1)
+            isaddr = isinstance(o, A.Address)
+            tokk = cc.addr_tok(o) if isaddr else cc.inst_tok(o)
+            lines.append(("aadd %s %d %d" if isaddr else "iadd %s %d %d") % (tokk, bits, d))
+            impl.append("ok %d %d" % (len(f), f.as_integer))
+            if (f.as_integer ^ d) & ~mask:
+                vio.append(("%s written into %d-bit frame %d after slice writes on frames of other widths (seed %d)"
+                            % (tokk, bits, d, seed), "only bits %d..%d change" % (hi, lo), f.as_integer))
+    return lines, impl, vio
+
+
 def correspond(ctx, corr):
     from dali import address as A
     from dali.frame import ForwardFrame, Frame
     from dali.exceptions import IncompatibleFrame
     rng = ctx.rng
+    # FIRST, before this process has performed any slice write: the interleaving suite, each run in its own
+    # forked child so that no state left by an earlier run (or suite) can mask an order-dependent defect
+    il_lines, il_impl = [], []
+    for lines_, impl_, vio_ in cc.parmap(_interleave_job, [ctx.seed * 1000 + k for k in range(16 if not ctx.thorough else 64)]):
+        il_lines += lines_; il_impl += impl_
+        for inp, want, got in vio_[:3]:
+            corr.violate("address:local-interleaved", inp, want, got)
+    corr.nontrivial(("interleaved", "widths"))
     corr.rule.append(
         "from_frame/instance_from_frame: ALL 2^16 16-bit frames; ALL 2^16 upper halves of 24-bit frames x low byte "
         "in {0,0xff,random}; sizes 1..64 sampled. add_to_frame: all 82 gear + 98 device address objects and all 256 "
@@ -198,6 +245,7 @@ def correspond(ctx, corr):
             st, r = outcome_cls(lambda: c(v))
             add("mkinst %s %s" % (k, cc.tok(v)), "ok " + cc.inst_tok(r) if st == "ok" else "err " + r)
             corr.nontrivial(("mkinst", k, st, r if st == "err" else ""))
+    lines += il_lines; impl += il_impl
     ans = cc.run_model("m_cmd", lines)
     for l, m, i in zip(lines, ans, impl):
         if m != i:
